@@ -71,47 +71,46 @@ def scratch():
         subprocess.check_call(['rsync', '-a', '--exclude', 'target', '--exclude', '.git', REPO + '/', local.d + '/'])
     return local.d
 def run(job):
-    unit, prop, rel, i, new, desc = job
+    units_, rel, i, new, desc = job
     d = scratch(); p = os.path.join(d, rel); orig = open(os.path.join(REPO, rel)).read()
     lines = orig.split('\n'); lines[i] = new
     open(p, 'w').write('\n'.join(lines))
-    try:
-        r = subprocess.run(['./check', prop, '--unit', unit], cwd=V, env=dict(os.environ, VERIF_REPO=d, VERIF_FMT_NOCACHE='1', VERIF_SCRATCH='/var/tmp'), stdout=subprocess.PIPE, stderr=subprocess.STDOUT, text=True, timeout=900)
-        rc = r.returncode; first = next((l.strip() for l in r.stdout.split('\n') if 'failed obligation' in l or l.startswith('UNDECIDED')), '')
-    except subprocess.TimeoutExpired:
-        rc = 2; first = 'timeout'
+    verdicts = []
+    for unit in units_:
+        try:
+            r = subprocess.run(['./check', sm[unit][0], '--unit', unit], cwd=V, env=dict(os.environ, VERIF_REPO=d, VERIF_FMT_NOCACHE='1', VERIF_SCRATCH='/var/tmp'), stdout=subprocess.PIPE, stderr=subprocess.STDOUT, text=True, timeout=900)
+            rc = r.returncode; first = next((l.strip() for l in r.stdout.split('\n') if 'failed obligation' in l or l.startswith('UNDECIDED')), '')
+        except subprocess.TimeoutExpired:
+            rc = 2; first = 'timeout'
+        verdicts.append((unit, rc, first))
+        if rc == 1: break
     open(p, 'w').write(orig)
-    print(unit, rc, desc[:110], '|', first[:90], flush=True)
-    return unit, rc, desc, first
-jobs = []
-rnd = random.Random(20261003)
+    rc = 1 if any(v[1] == 1 for v in verdicts) else (2 if any(v[1] == 2 for v in verdicts) else 0)
+    print(rc, desc[:110], '|', ' ; '.join('%s=%d' % (v[0], v[1]) for v in verdicts), flush=True)
+    return rc, desc, verdicts
+allm = {}
 for u in units:
-    try: s = sites_for(u)
+    try: s_ = sites_for(u)
     except Exception as e: print('skip', u, e); continue
-    rnd.shuffle(s)
-    for rel, i, new, desc in s[:K]: jobs.append((u, sm[u][0], rel, i, new, desc))
-print('units', len(units), 'mutants', len(jobs), flush=True)
+    for rel, i, new, desc in s_:
+        allm.setdefault((rel, i, new, desc), []).append(u)
+rnd = random.Random(20261003)
+keys = sorted(allm); rnd.shuffle(keys)
+jobs = [(allm[k], k[0], k[1], k[2], k[3]) for k in keys[:K]]
+print('units', len(units), 'mutation sites', len(keys), 'sampled', len(jobs), flush=True)
 with cf.ThreadPoolExecutor(J) as ex: res = list(ex.map(run, jobs))
 for w in range(1, wid[0] + 1): shutil.rmtree('/var/tmp/mut-w%d' % w, ignore_errors=True)
-by = {}
-for u, rc, desc, first in res: by.setdefault(u, []).append((rc, desc, first))
+tk = sum(1 for r in res if r[0] == 1); tu = sum(1 for r in res if r[0] == 2); ts = sum(1 for r in res if r[0] == 0)
 out = ['# Automatic mutation sweep over the real text under contract', '',
-       'Generated by `python3 lib/mutsweep.py -k %d` (first-order syntactic mutants of lines kept by a unit\'s extraction; one mutant at a time; `./check <prop> --unit <unit>` on a scratch copy).' % K,
-       'killed = exit 1 on a named obligation; undecided = exit 2 (front-end refusal / anchor lost: includes mutants that do not compile); survived = exit 0.', '',
-       '| unit | mutants | killed | undecided | survived |', '|---|---|---|---|---|']
-tk = tu = ts = 0
-for u in sorted(by):
-    k = sum(1 for r in by[u] if r[0] == 1); un = sum(1 for r in by[u] if r[0] == 2); s = sum(1 for r in by[u] if r[0] == 0)
-    tk += k; tu += un; ts += s
-    out.append('| %s | %d | %d | %d | %d |' % (u, len(by[u]), k, un, s))
-out += ['| **total** | %d | %d | %d | %d |' % (tk + tu + ts, tk, tu, ts), '', '## Survivors (to triage: equivalent mutant, or a contract that says too little)', '']
-for u in sorted(by):
-    for rc, desc, first in by[u]:
-        if rc == 0: out.append('* `%s`: %s' % (u, desc))
+       'Generated by `python3 lib/mutsweep.py -k %d`: first-order syntactic mutants (comparison/arithmetic/boolean operator swaps, integer literal +1, true<->false, one simple statement deleted) of source lines that are real text under some enabled Verus unit; one mutant at a time on a scratch copy of /repo; EVERY unit that keeps the mutated line is run (`./check <prop> --unit <unit>`) until one kills it.' % K,
+       'killed = some unit exits 1 on a named obligation; undecided = none kills and at least one exits 2 (front-end refusal / anchor lost: this includes mutants that do not compile); survived = every unit that keeps the line exits 0.', '',
+       '%d mutation sites in all, %d sampled: **killed %d, undecided %d, survived %d**.' % (len(keys), len(jobs), tk, tu, ts), '',
+       '## Survivors (to triage: equivalent mutant, or a contract that says too little)', '']
+for rc, desc, vs in res:
+    if rc == 0: out.append('* %s  — units: %s' % (desc, ', '.join(v[0] for v in vs)))
 out += ['', '## Undecided', '']
-for u in sorted(by):
-    for rc, desc, first in by[u]:
-        if rc == 2: out.append('* `%s`: %s — %s' % (u, desc, first[:120]))
+for rc, desc, vs in res:
+    if rc == 2: out.append('* %s — %s' % (desc, '; '.join('%s: %s' % (v[0], v[2][:100]) for v in vs if v[1] == 2)[:260]))
 if not only: open(os.path.join(V, 'notes', 'MUTSWEEP.md'), 'w').write('\n'.join(out) + '\n')
 json.dump(res, open('/var/tmp/mutsweep.json', 'w'))
-print('\n'.join(out[:8]), '\nkilled %d undecided %d survived %d' % (tk, tu, ts))
+print('killed %d undecided %d survived %d' % (tk, tu, ts))
